@@ -34,6 +34,15 @@ Theorem unknown_attr_ignored_partial : forall sch a1 fs vs an a a2,
 Proof. exact unknown_attr_ignored_gen. Qed.
 Print Assumptions unknown_attr_ignored_partial.
 
+(* independence of unknown elements: an element that matches no element field of the struct
+   (PNone for every field) can be inserted anywhere among the children *)
+Theorem unknown_child_ignored_partial : forall sch unm k1 fs vs c k2,
+  (forall f, In f fs -> path_match sch f [] (xname c) = PNone) ->
+  List.length fs = List.length vs ->
+  unmarshal_kids sch unm fs vs [] false (k1 ++ c :: k2) = unmarshal_kids sch unm fs vs [] false (k1 ++ k2).
+Proof. exact unknown_child_ignored_gen. Qed.
+Print Assumptions unknown_child_ignored_partial.
+
 (* independence of attribute order and of the interleaving of children with different names:
    the decoder's loops compute a per-field fold (distinct element names, no a>b path) *)
 Theorem decoder_is_fieldwise_partial : forall sch unm d bs e st1 st2,
